@@ -60,11 +60,11 @@ def grammar(tier):
         bodies_b = ['nop', 'stop'] + [('fire', p) for p in EPRIO]
         bodies_c = ['nop', 'stop']
         h_a = handler_sets(bodies_a, [(0, 1), (-1, 2.5)])
-        h_b = handler_sets(bodies_b, [(-1, 2.5), (0, 0.5)])
+        h_b = handler_sets(bodies_b, [(-1, 2.5)])
         h_c = handler_sets(bodies_c, [(0, 1)])
         ext1 = [('A', p) for p in EPRIO] + [('B', p) for p in (-1, 0, 2)] + [('C', 0)]
-        mids = [None, ('A', -1), ('A', 0), ('A', 2), ('B', 0), ('B', -1), ('C', 2)]
-        ext3 = ext1
+        mids = [None, ('A', -1), ('A', 2), ('B', 0), ('C', 2)]
+        ext3 = [('A', -1), ('A', 0), ('A', 0.5), ('A', 2), ('B', 0), ('B', -1)]
     exts = []
     for n in (1, 2):
         exts.extend(itertools.product(ext1, repeat=n))
